@@ -58,15 +58,6 @@ Proof. intros H. destruct (to_ok_addr_len t H) as [E|E]; rewrite E; lia. Qed.
 Lemma chain_small chain : (0 <= chain <= 2 ^ 53)%Z -> (Z.abs chain < 256 ^ Z.of_nat 8)%Z.
 Proof. intros H. change (256 ^ Z.of_nat 8)%Z with (2 ^ 64)%Z. lia. Qed.
 
-Ltac bound_items :=
-  repeat match goal with
-  | |- context [length (encode (WrapBig ?z))] =>
-      let H := fresh "Hb" in
-      first [ assert (H : (length (encode (WrapBig z)) <= 9 + 32)%nat) by (apply enc_int_len; assumption)
-            | assert (H : (length (encode (WrapBig z)) <= 9 + 8)%nat) by (apply enc_int_len; assumption) ];
-      generalize dependent (length (encode (WrapBig z))); intros
-  end.
-
 Section Bounds.
 Variable t : tx.
 Hypothesis R : in_range t.
